@@ -274,6 +274,7 @@ where T::Signed: H, T::Float: H, [T; N]: Frame<Sample = T, Signed = [T::Signed; 
         // step_by, count, last, len, size_hint, and from the back where they are double-ended)
         {
             use iterproto::*;
+            mark(0, &format!("frame {} x{}: {} — channels() / channels_ref() / channels_mut() driven by an iterator script", name, N, frs));
             let reference: Vec<T> = fr.iter().copied().collect();
             let s1 = gen_script(rng, N, Caps { double_ended: false, exact: false, finite: true });
             if let (Some((w, e, o)), _, _) = check(&reference, &s1, &run_fwd(fr.channels(), &s1), false, true) { st.oracle_fail(&format!("channels(): {}", w), &frs, &e, &o); } else { st.oracle_ok(s1.len() as u64); }
